@@ -18,7 +18,10 @@ LEVEL = "exploration"
 RULE = ("random model definitions (vf.gen.program: 1-5 states, 0-3 controls, 0-3 calibrations, "
         "adversarial names, set/list/tuple containers, shuffled dict orders, some expressions as "
         "strings, 1-3 shared sub-terms spliced into several outputs) x both CSE settings x N named "
-        "input points; a case is non-trivial when the program has >=3 symbols, a shared sub-term used "
+        "input points (incl. angle-wrap idioms, proactive_simplify, symbols with assumptions, integer-only "
+        "calibration maps, tiny literals x huge calibration values, states through from_data as int64/float32, "
+        "keyword calls, consecutive calls at inputs that hash alike, input objects reused after in-place "
+        "writes; directed probes of the exp-overflow region and of saturating logistic gates); a case is non-trivial when the program has >=3 symbols, a shared sub-term used "
         "by >=2 outputs and a declaration order different from sorted order; distinct = sha256 of the "
         "canonical definition")
 ASSUMPTIONS = [
